@@ -163,6 +163,18 @@ func run(e *hx.Env) *hx.Report {
 			kinds = append(kinds, "wild")
 		}
 	}
+	// ---- UPDATE transitions on a live manager over the strict fakes; final state and verdicts vs from-scratch
+	nu := e.N(60, 3000)
+	for i := 0; i < nu; i++ {
+		c, ps := policy.GenCase(e.Rng, i%3 == 0)
+		if len(ps) == 0 {
+			continue
+		}
+		if res := policy.RunUpdateScenario(e, rep, bt, fmt.Sprintf("s%d-u%d", e.Seed, i), e.Rng, c, ps); res != nil {
+			results = append(results, res)
+			kinds = append(kinds, "update")
+		}
+	}
 	bt.Flush()
 	for i, res := range results {
 		account(rep, res, kinds[i])
